@@ -5,7 +5,7 @@ import math
 from .. import core, impl, fieldlab as FL, grammar as GR
 from ..core import cstr, cz, copt, clist
 
-DEPS = ['Tables', 'K_numarr', 'Regexes']
+DEPS = ['Tables', 'K_numarr', 'Regexes', 'K_narange']
 MODEL_TARGETS = ['Corr/Codecc.vo', 'Corr/C20c.vo']
 IMPORTS = "From GfaV Require Import Base.Py Gen.K_numarr Model.Codec Model.TagValue Proofs.NumArrP Corr.C20c."
 LEVEL_TEXT = ("Theorems in coq/Props/C20.v: the decimal spelling of every integer reads back to the same value; the "
